@@ -57,13 +57,13 @@ func main() {
 	sizes := lg.AllSizes()
 	kinds := lg.Kinds()
 
-	// thorough = all (size x kind) pairs once plus a rotated diagonal; sized for ~10 CPU-minutes in the plain
+	// thorough = all (size x kind) pairs once plus a rotated diagonal; sized for ~20 CPU-minutes in the plain
 	// build so that the tier stays inside its budget on a busy machine
-	nBlk := p.N(400, 14000)
-	nStream := p.N(60, 1500)
-	nSub := p.N(16, 200)
+	nBlk := p.N(400, 28000)
+	nStream := p.N(60, 3000)
+	nSub := p.N(16, 400)
 	if p.Flavour != "" {
-		nBlk, nStream, nSub = p.N(130, 2000), p.N(20, 250), p.N(6, 40)
+		nBlk, nStream, nSub = p.N(130, 4000), p.N(20, 500), p.N(6, 80)
 	}
 	var cases []func(c *lg.Case)
 
